@@ -896,3 +896,117 @@ Definition run_accessors_geom (tbl32 : list (Z * Z)) (pre : list item) (ggs : li
                                                           VL (map (gitem_val (tbl_fun tbl32)) (geom_of tbl it))]) l))
                          (query k root nofilt))
           [Planar; Volumetric; ImageK]).
+
+(* ---- measurements in full: TID 300 behind get_measurements ------------------------------------------------------ *)
+(* _MeasurementsAndQualitativeEvaluations.get_measurements(name) (inherited by the planar, volumetric and image groups
+   the three queries return) = [Measurement.from_sequence([item]) for item in find_content_items(group, name, NUM)].
+   Measurement.from_sequence REBUILDS the NUM item: cls(name=item.name, value=item.value, unit=item.unit,
+   qualifier=item.qualifier), then copies the child content (ContentSequence.from_sequence(item.ContentSequence)).
+   What a Measurement shows: name, value, unit, qualifier (attributes of the NUM item) and - read from the child content
+   of the NUM item - derivation, method, finding_sites, referenced_images; the child content itself (tracking identifier,
+   algorithm identification, value map ... have no accessor).
+   MODELLING DEVICE: the two coded ATTRIBUTES of a NUM item that are not content items -
+   MeasuredValueSequence[0].MeasurementUnitsCodeSequence[0] (the unit, type 1) and NumericValueQualifierCodeSequence[0]
+   (the qualifier, optional: e.g. DCM 114006 Measurement failure, 114009 Value out of range) - are carried as two pseudo
+   children of the NUM item with the reserved names cUnitAttr / cQualAttr (no content item of a rendered tree gets these
+   names) and no relationship type; the real child content is what remains (num_content). *)
+Definition cUnitAttr := 21.
+Definition cQualAttr := 22.
+Definition cDerivation := 23.           (* DCM 121401 *)
+Definition cSourceOfMeas := 24.         (* DCM 121112 Source of Measurement *)
+
+Definition is_attr (i : item) : bool := (nm i =? cUnitAttr) || (nm i =? cQualAttr).
+(* value_types.py NumContentItem.unit / .qualifier / the ContentSequence of the item *)
+Definition num_unit (i : item) : option Z := first_v1 (filter (fun k => nm k =? cUnitAttr) (kids i)).
+Definition num_qualifier (i : item) : option Z := first_v1 (filter (fun k => nm k =? cQualAttr) (kids i)).
+Definition num_content (i : item) : list item := filter (fun k => negb (is_attr k)) (kids i).
+
+(* NumContentItem.__init__(name, value, unit, qualifier, relationship_type=CONTAINS) + a ContentSequence;
+   a / b: Numeric Value and the code of Floating Point Value *)
+Definition attr_items (unit : Z) (qual : option Z) : list item :=
+  leaf cUnitAttr CODE RNone unit 0 :: opt_item qual (fun q => leaf cQualAttr CODE RNone q 0).
+Definition num_item_init (name a b unit : Z) (qual : option Z) (content : list item) : item :=
+  Item name NUM CONTAINS a b None (attr_items unit qual ++ content).
+
+(* Measurement.from_sequence([item]): item.value is a Python float, so the rebuilt item carries Floating Point Value;
+   an item without unit (malformed: the attribute is type 1) makes item.unit raise *)
+Definition measurement_from_item (i : item) : res item :=
+  match num_unit i with
+  | None => Err "AttributeError"%string
+  | Some u => Ok (num_item_init (nm i) (num_value i) (fp_code (num_value i)) u (num_qualifier i) (num_content i))
+  end.
+
+(* the accessors of sr.Measurement, on its NUM item *)
+Definition m_derivation (m : item) : option Z := first_v1 (find_items (kids m) (Some cDerivation) (Some CODE) None).
+Definition m_method (m : item) : option Z := first_v1 (find_items (kids m) (Some cMethod) (Some CODE) None).
+Definition m_sites (m : item) : list Z := map v1 (find_items (kids m) (Some cFindingSite) (Some CODE) None).
+Definition m_images (m : item) : list (Z * Z) :=
+  map (fun i => (v1 i, v2 i)) (find_items (kids m) (Some cSourceOfMeas) (Some IMAGE) None).
+Definition kid_val (k : item) : val := VL [VZ (nm k); VZ (vt_tag (vt k)); VZ (rt_tag (rl k)); VZ (v1 k); VZ (v2 k)].
+(* observation of one measurement: name, value, unit, qualifier, derivation, method, finding sites, referenced images,
+   child content item by item *)
+Definition meas_val (m : item) : val :=
+  VL [VZ (nm m); VZ (num_value m); voptz (num_unit m); voptz (num_qualifier m); voptz (m_derivation m);
+      voptz (m_method m); vz_list (m_sites m); vpairs (m_images m); VL (map kid_val (num_content m))].
+
+Fixpoint map_res {A B} (f : A -> res B) (l : list A) : res (list B) :=
+  match l with
+  | [] => Ok []
+  | x :: t => bind (f x) (fun y => bind (map_res f t) (fun r => Ok (y :: r)))
+  end.
+Definition acc_measurements_full (g : item) (name : option Z) : res (list item) :=
+  map_res measurement_from_item (find_items (kids g) name (Some NUM) None).
+
+Definition meas_list_val (r : res (list item)) : val := vres (fun ms => VL (map meas_val ms)) r.
+Definition group_meas_val (mname : option Z) (g : item) : val :=
+  VL [voptz (acc_tracking_identifier g); meas_list_val (acc_measurements_full g None);
+      meas_list_val (acc_measurements_full g mname)].
+(* every measurement, in full, of every group the three queries return for filter f *)
+Definition run_tree_meas (root : item) (f : filt) (mname : option Z) : val :=
+  VL (map (fun k => vres (fun l => VL (map (group_meas_val mname) l)) (query k root f)) [Planar; Volumetric; ImageK]).
+
+(* constructor-level record of a measurement: sr.Measurement(name, value, unit, qualifier, tracking_identifier
+   (identifier text, uid), method, derivation, finding_sites, referenced_images) and the item it builds
+   (order of Measurement.__init__) *)
+Record mrec := MRec {
+  mr_name : Z; mr_value : Z; mr_unit : Z; mr_qual : option Z; mr_track : option (Z * Z);
+  mr_method : option Z; mr_deriv : option Z; mr_sites : list Z; mr_imgs : list (Z * Z) }.
+Definition meas_content (m : mrec) : list item :=
+  match mr_track m with
+  | Some (t, u) => [leaf cTrackingIdentifier TEXT HAS_OBS_CONTEXT t 0; leaf cTrackingUID UIDREF HAS_OBS_CONTEXT u 0]
+  | None => []
+  end
+  ++ opt_item (mr_method m) (fun c => leaf cMethod CODE HAS_CONCEPT_MOD c 0)
+  ++ opt_item (mr_deriv m) (fun c => leaf cDerivation CODE HAS_CONCEPT_MOD c 0)
+  ++ map (fun c => leaf cFindingSite CODE HAS_CONCEPT_MOD c 0) (mr_sites m)
+  ++ map (fun s => leaf cSourceOfMeas IMAGE INFERRED_FROM (fst s) (snd s)) (mr_imgs m).
+Definition build_meas (m : mrec) : item :=
+  num_item_init (mr_name m) (mr_value m) 0 (mr_unit m) (mr_qual m) (meas_content m).
+
+(* common_items with the NUM items given (common_items g = common_items_m g (the bare leaves of g_meas g)) *)
+Definition common_items_m (g : group) (ms : list item) : list item :=
+  [leaf cTrackingIdentifier TEXT HAS_OBS_CONTEXT (g_tid g) 0;
+   leaf cTrackingUID UIDREF HAS_OBS_CONTEXT (g_tuid g) 0]
+  ++ opt_item (g_session g) (fun s => leaf cSession TEXT HAS_OBS_CONTEXT s 0)
+  ++ opt_item (g_category g) (fun c => leaf cFindingCategory CODE CONTAINS c 0)
+  ++ opt_item (g_finding g) (fun c => leaf cFinding CODE CONTAINS c 0)
+  ++ opt_item (g_method g) (fun c => leaf cMethod CODE CONTAINS c 0)
+  ++ map (fun c => leaf cFindingSite CODE HAS_CONCEPT_MOD c 0) (g_sites g)
+  ++ match g_tptype g with
+     | Some t => [leaf cTimePoint TEXT HAS_OBS_CONTEXT 0 0; leaf cTimePointType CODE HAS_OBS_CONTEXT t 0]
+     | None => []
+     end
+  ++ ms
+  ++ map (fun e => leaf (fst e) CODE CONTAINS (snd e) 0) (g_evals g)
+  ++ opt_item (g_geom g) (fun c => leaf cGeomPurpose CODE CONTAINS c 0).
+(* a group built from record g whose measurements are the full records ms (g_meas g is their (name, value) part) *)
+Definition build_m (gm : group * list mrec) : item :=
+  let g := fst gm in
+  Item cMeasurementGroup CONTAINER CONTAINS 0 0
+       (if g_has_tid g then Some (kind_tid (g_kind g)) else None)
+       (common_items_m g (map build_meas (snd gm)) ++ ref_items (g_ref g)).
+Definition report_m (pre : list item) (gms : list (group * list mrec)) : item :=
+  Item 0 CONTAINER RNone 0 0 (Some 1500)
+       (pre ++ [Item cImagingMeasurements CONTAINER CONTAINS 0 0 None (map build_m gms)]).
+Definition run_meas (pre : list item) (gms : list (group * list mrec)) (f : filt) (mname : option Z) : val :=
+  run_tree_meas (report_m pre gms) f mname.
